@@ -192,21 +192,24 @@ fn call(i: usize, ins: &[Vec<u8>]) -> String {
         9 => {
             tick();
             let a = first_avp(&ins[6]);
-            format!("{:?}", a.hide(b"secret", &RandomVector { value: [1, 2, 3, 4] }, &[9, 9, 9], &[7u8; 16]))
+            format!("{:?}", a.hide(b"secret", &RandomVector::from([1, 2, 3, 4]), &[9, 9, 9], &[7u8; 16]))
         }
         10 => {
             tick();
+            let other = first_avp(&ins[7]);
+            let h2 = other.hide(b"secret", &RandomVector::from([1, 2, 3, 4]), &[4, 4], &[6u8; 16]);
+            let shown = format!("{h2:?}");
             let a = first_avp(&ins[6]);
-            let h = a.hide(b"secret", &RandomVector { value: [1, 2, 3, 4] }, &[9, 9, 9], &[7u8; 16]);
-            format!("{:?}", h.reveal(b"secret", &RandomVector { value: [1, 2, 3, 4] }))
+            let h = a.hide(b"secret", &RandomVector::from([1, 2, 3, 4]), &[9, 9, 9], &[7u8; 16]);
+            format!("{shown} / {:?} / {:?}", h2.reveal(b"secret", &RandomVector::from([1, 2, 3, 4])), h.reveal(b"secret", &RandomVector::from([1, 2, 3, 4])))
         }
         _ => {
             tick();
             let a = first_avp(&ins[7]);
-            let h = a.hide(b"Secret", &RandomVector { value: [9, 8, 7, 6] }, &[5], &[3u8; 16]);
+            let h = a.hide(b"Secret", &RandomVector::from([9, 8, 7, 6]), &[5], &[3u8; 16]);
             let shown = format!("{h:?}");
-            let b = first_avp(&ins[6]).hide(b"secret", &RandomVector { value: [1, 2, 3, 4] }, &[9, 9, 9], &[7u8; 16]);
-            format!("{shown} / {:?} / {:?}", h.reveal(b"Secret", &RandomVector { value: [9, 8, 7, 6] }), b.reveal(b"Secret", &RandomVector { value: [1, 2, 3, 4] }))
+            let b = first_avp(&ins[6]).hide(b"secret", &RandomVector::from([1, 2, 3, 4]), &[9, 9, 9], &[7u8; 16]);
+            format!("{shown} / {:?} / {:?}", h.reveal(b"Secret", &RandomVector::from([9, 8, 7, 6])), b.reveal(b"Secret", &RandomVector::from([1, 2, 3, 4])))
         }
     }));
     match r {
